@@ -139,7 +139,23 @@ func c17Gen(r *Rng, mode string, n int) c17Case {
 	}
 	// the header fields below would make the driver drop frames before Stacks() sees them
 	p.DropFrames, p.KeepFrames = "", ""
+	// environment strategy: file names with a path component equal to the basename of the directory
+	// the real code is started from; a second run from an unrelated directory must agree
+	cwdBase, altBase := "", ""
+	if !seq && r.Chance(12) {
+		words := []string{"proj", "src", "work", "build", "pprof", "go", "a", "x.go", "my-project", "verif", "tmp", "home"}
+		cwdBase = words[r.Intn(len(words))]
+		altBase = "elsewhere-" + words[r.Intn(len(words))]
+		pats := []string{"/build/%s/pkg/x.go", "/home/alice/%s/util/strings.go", "/home/bob/%s/util/strings.go", "/%s/main.go",
+			"%s/rel.go", "/a/%s/%s/twice.go", "/proc/self/cwd/%s/in.go", "/x/%s", "/x/%s/", "/deep/er/%s/y/z.go"}
+		for _, f := range p.Function {
+			if r.Chance(60) {
+				f.Filename = strings.ReplaceAll(pats[r.Intn(len(pats))], "%s", cwdBase)
+			}
+		}
+	}
 	cs := c17Case{Mode: mode, Profile: Canon(p), SampleIndex: r.Intn(len(p.SampleType))}
+	cs.CwdBase, cs.AltCwdBase = cwdBase, altBase
 	var pickSel0 func(col int) (bool, string)
 	pickSel := func(col int) (bool, string) {
 		by, sel := pickSel0(col)
